@@ -128,8 +128,11 @@ inductive Val where
   | bot
   | top
   | sc (s : Sc)
+  /-- `rec`: the value is recursively closed (if it is embedded, the enclosing struct becomes
+  recursively closed as well); `erec`: some EMBEDDED part of the struct literal under
+  construction is recursively closed -/
   | st (labels : List Label) (kind : Label → Option Kind) (val : Label → Val)
-       (hard soft : List Pred) (names wide : Pred)
+       (hard soft : List Pred) (names wide : Pred) (rec erec : Bool)
 
 def allP (ps : List Pred) (l : Label) : Bool := ps.all (· l)
 
@@ -142,16 +145,16 @@ def noKind : Label → Option Kind := fun _ => none
 def noVal : Label → Val := fun _ => .top
 def noP : Pred := fun _ => false
 
-def emptySt : Val := .st [] noKind noVal [] [] noP noP
+def emptySt : Val := .st [] noKind noVal [] [] noP noP false false
 
 def single (l : Label) (k : Kind) (v : Val) : Val :=
   .st [l] (fun x => if x = l then some k else none) (fun x => if x = l then v else .top)
-    [] [] (fun x => x == l) (fun x => x == l)
+    [] [] (fun x => x == l) (fun x => x == l) false false
 
 def patV (p : Pat) (v : Val) : Val :=
-  .st [] noKind (fun x => if p.matches x then v else .top) [] [] p.matches p.matches
+  .st [] noKind (fun x => if p.matches x then v else .top) [] [] p.matches p.matches false false
 
-def ellV : Val := .st [] noKind noVal [] [] Label.isReg Label.isReg
+def ellV : Val := .st [] noKind noVal [] [] Label.isReg Label.isReg false false
 
 /-- unification: scalars by the lattice, structs pointwise -/
 def unify : Val → Val → Val
@@ -164,41 +167,44 @@ def unify : Val → Val → Val
     | none => .bot
   | .sc _, .st .. => .bot
   | .st .., .bot => .bot
-  | .st l k v h s n w, .top => .st l k v h s n w
+  | .st l k v h s n w r e, .top => .st l k v h s n w r e
   | .st .., .sc _ => .bot
-  | .st l1 k1 v1 h1 s1 n1 w1, .st l2 k2 v2 h2 s2 n2 w2 =>
+  | .st l1 k1 v1 h1 s1 n1 w1 r1 e1, .st l2 k2 v2 h2 s2 n2 w2 r2 e2 =>
     .st (l1 ++ l2) (fun x => mergeK (k1 x) (k2 x)) (fun x => unify (v1 x) (v2 x))
-      (h1 ++ h2) (s1 ++ s2) (fun x => n1 x || n2 x) (fun x => w1 x || w2 x)
-
-/-- a struct literal is complete: closers that came in through embeddings are widened by
-everything the literal declares / its embeddings admit; recursively for the children
-(the conjuncts a literal and its embeddings contribute to a field stay in that relation) -/
-def sealV : Val → Val
-  | .st l k v h s n w =>
-    .st l k (fun x => sealV (v x)) (h ++ s.map (fun r x => r x || w x)) [] n
-      (dOf (h ++ s.map (fun r x => r x || w x)) n)
-  | v => v
-
-/-- use a (sealed) value as an embedding: its closers become soft, at every depth -/
-def asEmb : Val → Val
-  | .st l k v h _ n _ => .st l k (fun x => asEmb (v x)) [] h n (dOf h n)
-  | v => v
-
-/-- use a (sealed) value as a direct conjunct of a literal under construction: its closers
-stay as they are; towards the embeddings of that literal it counts with what it names -/
-def asOwn : Val → Val
-  | .st l k v h s n _ => .st l k v h s n n
-  | v => v
-
-/-- `close(v)`: one more closer at this level only (ClosedNonRecursive) -/
-def closeV : Val → Val
-  | .st l k v h s n _ => .st l k v (h ++ [dOf h n]) s n (dOf h n)
-  | v => v
+      (h1 ++ h2) (s1 ++ s2) (fun x => n1 x || n2 x) (fun x => w1 x || w2 x) (r1 || r2) (e1 || e2)
 
 /-- referencing a definition: close at every depth (ClosedRecursive); only structs the
 definition actually defines are closed (`top` children stay `top`) -/
 def closeRec : Val → Val
-  | .st l k v h s n _ => .st l k (fun x => closeRec (v x)) (h ++ [dOf h n]) s n (dOf h n)
+  | .st l k v h s n _ _ e => .st l k (fun x => closeRec (v x)) (h ++ [dOf h n]) s n (dOf h n) true e
+  | v => v
+
+/-- a struct literal is complete: closers that came in through embeddings are widened by
+everything the literal declares / its embeddings admit; recursively for the children
+(the conjuncts a literal and its embeddings contribute to a field stay in that relation).
+If an embedded part is recursively closed, so are all children of the literal. -/
+def sealV : Val → Val
+  | .st l k v h s n w r e =>
+    .st l k (fun x => if e then closeRec (sealV (v x)) else sealV (v x))
+      (h ++ s.map (fun r x => r x || w x)) [] n
+      (dOf (h ++ s.map (fun r x => r x || w x)) n) r false
+  | v => v
+
+/-- use a (sealed) value as an embedding: its closers become soft, at every depth -/
+def asEmb : Val → Val
+  | .st l k v h _ n _ r _ => .st l k (fun x => asEmb (v x)) [] h n (dOf h n) r r
+  | v => v
+
+/-- use a (sealed) value as a direct conjunct of a literal under construction (a field
+value, at every depth): its closers stay as they are; towards the embeddings of that
+literal it counts with what it names -/
+def asOwn : Val → Val
+  | .st l k v h s n _ r _ => .st l k (fun x => asOwn (v x)) h s n n r false
+  | v => v
+
+/-- `close(v)`: one more closer at this level only (ClosedNonRecursive) -/
+def closeV : Val → Val
+  | .st l k v h s n _ r e => .st l k v (h ++ [dOf h n]) s n (dOf h n) r e
   | v => v
 
 mutual
@@ -208,8 +214,8 @@ def ev : Expr → Val
   | .bot => .bot
   | .sc s => .sc s
   | .nil => sealV emptySt
-  | .field l k v rest => sealV (unify (single l k (ev v)) (evS rest))
-  | .pat p v rest => sealV (unify (patV p (ev v)) (evS rest))
+  | .field l k v rest => sealV (unify (single l k (asOwn (ev v))) (evS rest))
+  | .pat p v rest => sealV (unify (patV p (asOwn (ev v))) (evS rest))
   | .ell rest => sealV (unify ellV (evS rest))
   | .emb e rest => sealV (unify (asEmb (ev e)) (evS rest))
   | .own e rest => sealV (unify (asOwn (ev e)) (evS rest))
@@ -220,13 +226,13 @@ def ev : Expr → Val
 def evS : Expr → Val
   | .top => .top
   | .nil => emptySt
-  | .field l k v rest => unify (single l k (ev v)) (evS rest)
-  | .pat p v rest => unify (patV p (ev v)) (evS rest)
+  | .field l k v rest => unify (single l k (asOwn (ev v))) (evS rest)
+  | .pat p v rest => unify (patV p (asOwn (ev v))) (evS rest)
   | .ell rest => unify ellV (evS rest)
   | .emb e rest => unify (asEmb (ev e)) (evS rest)
   | .own e rest => unify (asOwn (ev e)) (evS rest)
-  | .bot => asEmb .bot
-  | .sc s => asEmb (.sc s)
+  | .bot => .bot
+  | .sc s => .sc s
   | .close e => asEmb (closeV (ev e))
   | .defn e => asEmb (closeRec (ev e))
   | .and a b => asEmb (unify (ev a) (ev b))
@@ -240,7 +246,7 @@ def validate (full : Bool) : Val → Bool
   | .bot => false
   | .top => !full
   | .sc s => s.concrete || !full
-  | .st labels kind val hard _ _ _ =>
+  | .st labels kind val hard _ _ _ _ _ =>
     labels.all fun l =>
       match kind l with
       | none => true
@@ -251,7 +257,7 @@ def validate (full : Bool) : Val → Bool
 
 /-- could a field `l` be added (cue.Value.Allows): every closer admits it -/
 def Val.allows : Val → Label → Bool
-  | .st _ _ _ hard _ _ _, l => !l.isReg || allP hard l
+  | .st _ _ _ hard _ _ _ _ _, l => !l.isReg || allP hard l
   | _, _ => false
 
 /-! ### concrete data -/
